@@ -423,6 +423,14 @@ func genWire(c *core.Ctx) {
 				}
 			}
 		}
+		{
+			var b []byte
+			for i := 0; i < 1500; i++ {
+				b = append(b, hdr(0, 0)...)
+			}
+			body := append(append(i64(0), i64(3)...), 1, 2, 3)
+			addWireCase(c, &wireCase{Data: lit(append(b, msgFrames(body, []int{4})...)), Op: "ops", Ops: []opSpec{{Op: which}}, Note: "empty partial frames first"}, which)
+		}
 		// hasKey variants and truncations
 		if which == "xkey" {
 			for _, hk := range []int64{0, -1, 2, 1 << 40} {
@@ -460,6 +468,14 @@ func genWire(c *core.Ctx) {
 			}
 			addWireCase(c, &wireCase{Data: lit(msgFrames(p2, []int{len(p2)})), Op: "ops", Ops: ops, Note: "empty EOM frame"}, "typed")
 			addWireCase(c, &wireCase{Data: lit(msgFrames(p2, []int{len(p2) / 2, len(p2), len(p2)})), Op: "ops", Ops: ops, Note: "empty partial + empty EOM frame"}, "typed")
+		}
+		// a run of empty partial frames in front of the message (cleartext stream)
+		for _, n := range []int{400, 3000} {
+			var b []byte
+			for i := 0; i < n; i++ {
+				b = append(b, hdr(0, 0)...)
+			}
+			addWireCase(c, &wireCase{Data: lit(append(b, msgFrames(payload, []int{3})...)), Op: "ops", Ops: ops, Note: "empty partial frames first"}, "typed")
 		}
 		for _, cnt := range []int64{1 << 20, 1 << 62} {
 			if ops[0].family() == "classad" {
